@@ -365,7 +365,15 @@ def visitPacketDef (p : PacketDef) : V MPacket := do
       let s ← get
       match lf.attr.bind (s.attrs[·]?) with
       | some (.length _ (some tname)) =>
-        if fieldMap.contains tname then pure lenF
+        if fieldMap.contains tname then
+          -- the slot is reserved where the length field stands and patched after the target: the length field comes first
+          match li, fields.findIdx? (·.name = tname) with
+          | some i, some j =>
+            if j ≤ i then do
+              addDiag (lines.getD i 0) ("Field " ++ tname ++ " measured by @lengthOf of field " ++ lf.name ++ " must be declared after it")
+              pure none
+            else pure lenF
+          | _, _ => pure lenF
         else do
           addDiag (match li with | some i => lines.getD i 0 | none => 0) ("Unknown field " ++ tname ++ " for @lengthOf of field " ++ lf.name)
           pure none
